@@ -316,7 +316,7 @@ def idn_domains(tier, rng, mdl):
     out = []
     idn_tlds = idn_tld_pairs(mdl)
     ascii_tlds = [b"com", b"org", b"ru", b"de", b"museum", b"arpa", b"test", b"zzzz"]
-    n = 6000 if tier == "quick" else 120000
+    n = 20000 if tier == "quick" else 300000
     scripts = sorted(SCRIPT_POOLS)
     for i in range(n):
         script = scripts[i % len(scripts)]
@@ -339,7 +339,7 @@ def idn_domains(tier, rng, mdl):
             A = b".".join(to_alabel(l) for l in labs)
         out.append((U, A))
     # long domains: many bytes in UTF-8, but an A-label form within the DNS limits (computed here, anchored on libidn2 later)
-    for i in range(60 if tier == "quick" else 1500):
+    for i in range(200 if tier == "quick" else 4000):
         script = scripts[i % len(scripts)]
         labs = []
         target = rng.choice([200, 250, 254, 255, 256, 300, 400, 500])
